@@ -313,6 +313,8 @@ def t_degenerate():
             continue
         base = judge_simple(stats, text, doc, ctx, "degenerate")
         n += 1
+        if ctx is None:
+            judge_forms(stats, text, doc, "degenerate")  # the same queries on the JSON text / file forms of the container documents
         if base is not None and base[0] == "ok" and base[1]:
             stats.nt("degenerate", text, canon(doc), canon(ctx))
     stats.subspaces.append({"name": "38 segment-less / fake-root / compound / context-reading queries x 18 scalar, empty and tiny documents x 3 filter contexts x 14 entry points",
